@@ -1,7 +1,7 @@
 //! C16 — concurrent scanner threads never tear or mix output records, and never deadlock.
 //!
 //! The emitted program (text produced by the real parse/compile/scheme) is executed by the stub
-//! runtime of `eval.rs` on 2..4 scanner threads under a scheduler the simulator owns. The oracle
+//! runtime of `eval.rs` on 2..4 (sometimes up to 17) scanner threads under a scheduler the simulator owns. The oracle
 //! compares what arrives on every destination with the sequential run of the same program.
 
 use crate::coord::{self, BlockResult, Plan};
@@ -40,6 +40,8 @@ pub struct Workload {
     /// None: unbuffered ports; Some(cap): block-buffered ports of this capacity
     pub buffer_cap: Option<usize>,
     pub flush_resets_first: bool,
+    /// buckets of the runtime's hash tables (see eval::Knobs::table_buckets)
+    pub table_buckets: usize,
     /// the expression uses a construct the pinned tree refuses or emits unreadably (`-ls`, `\c`):
     /// such workloads are expected to be set aside today and are not counted as generator drift
     pub probe: bool,
@@ -109,6 +111,7 @@ impl Workload {
             "hash_key": self.hash_key,
             "buffer_cap": self.buffer_cap,
             "flush_resets_first": self.flush_resets_first,
+            "table_buckets": self.table_buckets,
             "probe": self.probe,
             "stall_large_writes": self.stall_large_writes,
             "dynamic_assignment": self.dynamic_assignment,
@@ -131,6 +134,7 @@ impl Workload {
             hash_key: v["hash_key"].as_u64().ok_or("workload: missing hash_key")?,
             buffer_cap: v["buffer_cap"].as_u64().map(|c| c as usize),
             flush_resets_first: v["flush_resets_first"].as_bool().unwrap_or(false),
+            table_buckets: v["table_buckets"].as_u64().unwrap_or(1) as usize,
             probe: v["probe"].as_bool().unwrap_or(false),
             stall_large_writes: v["stall_large_writes"].as_u64().map(|x| x as usize),
             dynamic_assignment: v["dynamic_assignment"].as_bool().unwrap_or(false),
@@ -305,9 +309,12 @@ fn workload_inner(rng: &mut Rng, tier: Tier, volume: bool) -> Workload {
         layout_variants: false,
     };
     let expr = gen::expression(rng, &cfg);
-    let n_files = rng.range(1, 8) as usize;
+    // one workload in 12 is wide: more scanner threads and files than any fixed-size pool of
+    // per-thread slots (4, 8, 16) a generated program might keep
+    let wide = !volume && rng.chance(1, 12);
+    let n_files = if wide { rng.range(8, 40) as usize } else { rng.range(1, 8) as usize };
     let files: Vec<FileRec> = (0..n_files).map(|i| gen_file(rng, i, cfg.pattern_pool)).collect();
-    let threads = *rng.pick(&[2usize, 2, 3, 3, 4]);
+    let threads = if wide { *rng.pick(&[5usize, 6, 8, 9, 12, 16, 17]) } else { *rng.pick(&[2usize, 2, 3, 3, 4]) };
     let mut partition = vec![vec![]; threads];
     for f in 0..n_files {
         partition[rng.usize_below(threads)].push(f);
@@ -322,6 +329,7 @@ fn workload_inner(rng: &mut Rng, tier: Tier, volume: bool) -> Workload {
         hash_key: rng.next_u64(),
         buffer_cap: *rng.pick(&[None, None, None, Some(8), Some(40), Some(300), Some(4096)]),
         flush_resets_first: rng.chance(1, 2),
+        table_buckets: *rng.pick(&[1usize, 1, 2, 7]),
         probe,
         stall_large_writes: None,
         dynamic_assignment: rng.chance(1, 2),
@@ -440,6 +448,7 @@ fn knobs_for(w: &Workload, sequential: bool) -> Knobs {
             honour_break: false,
             buffer_cap: w.buffer_cap,
             flush_resets_first: w.flush_resets_first,
+            table_buckets: w.table_buckets,
             stall_large_writes: None,
             dynamic_assignment: false,
         }
@@ -452,6 +461,7 @@ fn knobs_for(w: &Workload, sequential: bool) -> Knobs {
             honour_break: true,
             buffer_cap: w.buffer_cap,
             flush_resets_first: w.flush_resets_first,
+            table_buckets: w.table_buckets,
             stall_large_writes: w.stall_large_writes,
             dynamic_assignment: w.dynamic_assignment,
         }
@@ -485,7 +495,7 @@ pub fn prepare_program(w: &Workload, program: String, io_keys: Option<Vec<u32>>)
     match rt.run_program(&forms) {
         Ok(()) => {}
         Err(EvalErr::Unsupported(e)) => return Prep::Harness(format!("stub runtime cannot evaluate the program: {e}\n{program}")),
-        Err(EvalErr::Runtime(e)) => {
+        Err(EvalErr::Runtime(e)) | Err(EvalErr::Thrown(e, _)) => {
             return Prep::Violation(Violation {
                 class: "program-raises-error-sequentially".into(),
                 detail: format!("the emitted program raises an error before or after the scan even on one thread: {e}"),
@@ -507,7 +517,7 @@ pub fn prepare_program(w: &Workload, program: String, io_keys: Option<Vec<u32>>)
             Ev::Error { error: EvalErr::Unsupported(e), .. } => {
                 return Prep::Harness(format!("stub runtime cannot evaluate the policy: {e}\n{program}"))
             }
-            Ev::Error { error: EvalErr::Runtime(e), file, .. } => {
+            Ev::Error { error: EvalErr::Runtime(e), file, .. } | Ev::Error { error: EvalErr::Thrown(e, _), file, .. } => {
                 return Prep::Violation(Violation {
                     class: "policy-raises-error-sequentially".into(),
                     detail: format!("evaluating the policy on file {file} raises an error even on one thread: {e}"),
@@ -761,7 +771,7 @@ pub fn judge(w: &Workload, prep: &Prepared, ex: &Exec) -> (Verdict, Metrics) {
             }
             Ev::Error { thread, file, error } => match error {
                 EvalErr::Unsupported(e) => return (Verdict::Harness(format!("stub runtime cannot evaluate: {e}")), m),
-                EvalErr::Runtime(e) => {
+                EvalErr::Runtime(e) | EvalErr::Thrown(e, _) => {
                     return (
                         vio(
                             "runtime-error-under-concurrency",
@@ -1417,7 +1427,7 @@ pub fn check(tier: Tier) -> i32 {
         wall_s: wall,
         evaluations: executions,
         distinct_nontrivial: distinct,
-        rule: "One case = one execution of one generated program (1-14 output actions of every kind over relative/absolute/aliased destinations, framed or plain mode, optional -quit, 0-130 tests in front; probe workloads with -ls/-fls or \\c formats; one workload in 400 is a volume workload of 300-1200 files and 100-400 KiB) on 2-4 scanner threads over 1-8 files under one seeded schedule (Random, Sticky or PCT strategy; scheduling points at every lock/unlock, every port operation, every access to an assigned variable or hash table, and between files; displays split into up to 3 chunk writes; ports unbuffered or unsynchronised block-buffered with capacity 8-4096; large writes may stall). The final stream of every destination is compared, as a multiset of frames or lines, with sequential scans of the same program. Non-trivial = the event trace switches between scanner threads at least once. distinct_nontrivial counts distinct (program text, lock/unlock/write/file event trace) pairs among them, i.e. distinct interleavings reached.",
+        rule: "One case = one execution of one generated program (1-14 output actions of every kind over relative/absolute/aliased destinations, framed or plain mode, optional -quit, 0-130 tests in front; probe workloads with -ls/-fls or \\c formats; one workload in 400 is a volume workload of 300-1200 files and 100-400 KiB) on 2-4 scanner threads over 1-8 files (one workload in 12: 5-17 threads over 8-40 files) under one seeded schedule (Random, Sticky or PCT strategy; scheduling points at every lock/unlock, every port operation, every access to an assigned variable or hash table, and between files; displays split into up to 3 chunk writes; ports unbuffered or unsynchronised block-buffered with capacity 8-4096; large writes may stall). The final stream of every destination is compared, as a multiset of frames or lines, with sequential scans of the same program. Non-trivial = the event trace switches between scanner threads at least once. distinct_nontrivial counts distinct (program text, lock/unlock/write/file event trace) pairs among them, i.e. distinct interleavings reached.",
         samples: red.samples.clone(),
         extra,
         assumptions: vec![
@@ -1427,6 +1437,7 @@ pub fn check(tier: Tier) -> i32 {
             "A4 (make-printer port mutex term) = (lambda (s) (with-mutex mutex (display s port) (when term (display term port))))".into(),
             "A5 lipe-scan evaluates the policy once per file on T threads, a file entirely on one thread; lipe-scan-break stops new files, running ones complete".into(),
             "A6 ports opened on one file name share one destination".into(),
+            "A7 hash tables, vectors and assigned variables take no lock of their own (Guile manual: hash tables are not thread-safe); updating an existing key is one store, inserting a new key is read chain / store new head, so two unsynchronised insertions into one bucket (1, 2 or 7 buckets per workload) can lose one".into(),
             "port I/O errors and asynchronous thread cancellation are not injected (outside what the property states)".into(),
         ],
         violations,
@@ -1518,7 +1529,7 @@ fn selftest_workload(threads: usize, files: usize) -> Workload {
     for f in 0..files {
         partition[f % threads].push(f);
     }
-    Workload { expr: String::new(), files: fs, threads, partition, max_chunks: 1, chunk_seed: 1, hash_key: 1, buffer_cap: None, flush_resets_first: false, probe: false, stall_large_writes: None, dynamic_assignment: false }
+    Workload { expr: String::new(), files: fs, threads, partition, max_chunks: 1, chunk_seed: 1, hash_key: 1, buffer_cap: None, flush_resets_first: false, table_buckets: 1, probe: false, stall_large_writes: None, dynamic_assignment: false }
 }
 
 fn wrap_program(defs: &str, policy: &str) -> String {
@@ -1634,6 +1645,91 @@ pub fn selftests() -> Vec<(&'static str, bool, String)> {
         "(use-modules (lipe))\n(define p (current-output-port))\n(define m (make-mutex))\n(define (emit l) (define t (string-append l \"\\n\")) (with-mutex m (display t p)))\n(lipe-scan \"/dev/x\" (lipe-getopt-client-mount-path) (lambda () (call-with-relative-path emit)) (lipe-getopt-required-attrs) 2)".to_string(),
         None,
         2000,
+        None,
+    );
+    // per-thread pending output in a hash table keyed by the thread, written once per file
+    let pending = |locked: bool| {
+        let (get, put) = ("(or (hashq-ref pend (current-thread)) \"\")", |v: &str| format!("(hashq-set! pend (current-thread) {v})"));
+        let add = put(&format!("(string-append {get} l (string #\\x0a))"));
+        let add = if locked { format!("(with-mutex m {add})") } else { add };
+        let take = format!("(let ((f {get})) {} f)", put("\"\""));
+        let take = if locked { format!("(with-mutex m {take})") } else { take };
+        format!("(p (current-output-port)) (m (make-mutex)) (pend (make-hash-table)) (pr (lambda (l) {add} (let ((t {take})) (with-mutex m (display t p)))))")
+    };
+    case(
+        "per-thread pending strings in a hash table, insertions not under the lock: lost records are found",
+        &w3,
+        wrap_program(&pending(false), "(call-with-relative-path pr)"),
+        None,
+        5000,
+        Some(&["records-lost-or-altered"]),
+    );
+    case(
+        "per-thread pending strings in a hash table, table only touched under the lock: nothing lost",
+        &w3,
+        wrap_program(&pending(true), "(call-with-relative-path pr)"),
+        None,
+        3000,
+        None,
+    );
+    case(
+        "quote, pairs and association lists: evaluated; records queued per call and written under the lock",
+        &w3,
+        wrap_program(
+            "(p (current-output-port)) (m (make-mutex)) (tags '((a . #\\x41) (b . #\\x42))) (pr (lambda (l) (let ((q (cons (cons l (cdr (assq 'b tags))) '()))) (with-mutex m (for-each (lambda (f) (display (car f) p) (display (cdr f) p) (display #\\x0a p)) q)))))",
+            "(call-with-relative-path pr)",
+        ),
+        None,
+        2000,
+        None,
+    );
+    case(
+        "throw out of with-mutex caught by catch (rest parameter): mutex released, nothing torn, no deadlock",
+        &w3,
+        wrap_program(
+            "(p (current-output-port)) (m (make-mutex)) (pr (lambda (l) (catch #t (lambda () (with-mutex m (display l p) (display #\\x0a p) (if (= (logand (ino) 1) 0) (throw 'skip l)))) (lambda (key . args) #t))))",
+            "(call-with-relative-path pr)",
+        ),
+        None,
+        3000,
+        None,
+    );
+    case(
+        "atomic box counted up with a compare-and-swap loop, case and do: evaluated; lines written under the lock are never torn",
+        &w3,
+        wrap_program(
+            "(p (current-output-port)) (m (make-mutex)) (cnt (make-atomic-box 0)) (bump (lambda () (let loop () (let ((old (atomic-box-ref cnt))) (if (not (eqv? (atomic-box-compare-and-swap! cnt old (+ old 1)) old)) (loop)))))) (pr (lambda (l) (bump) (do ((i 0 (+ i 1))) ((= i 2)) (with-mutex m (display (case i ((0) l) (else (string-upcase l))) p) (display #\\x0a p)))))",
+            "(call-with-relative-path pr)",
+        ),
+        None,
+        2000,
+        None,
+    );
+    case(
+        "pending text kept in a shared pair with set-cdr! outside the lock: lost or duplicated records are found",
+        &w3,
+        wrap_program(
+            "(p (current-output-port)) (m (make-mutex)) (buf (cons 0 \"\")) (pr (lambda (l) (set-cdr! buf (string-append (cdr buf) l (string #\\x0a))) (with-mutex m (display (cdr buf) p) (set-cdr! buf \"\"))))",
+            "(call-with-relative-path pr)",
+        ),
+        None,
+        5000,
+        Some(&["records-lost-or-altered"]),
+    );
+    case(
+        "display and newline without a port argument, no lock: torn line is found",
+        &w,
+        wrap_program("(pr (lambda (l) (display l) (newline)))", "(call-with-relative-path pr)"),
+        None,
+        3000,
+        Some(&["torn-line", "mixed-line", "records-lost-or-altered"]),
+    );
+    case(
+        "display and newline without a port argument under one mutex: never torn",
+        &w,
+        wrap_program("(m (make-mutex)) (pr (lambda (l) (with-mutex m (display l) (newline))))", "(call-with-relative-path pr)"),
+        None,
+        3000,
         None,
     );
     case(
